@@ -24,6 +24,7 @@ TRANSPARENT_CTORS = {"Some", "Ok"}
 ELEMWISE = {"map", "filter", "find", "for_each", "any", "all", "is_some_and", "is_none_or", "and_then", "filter_map",
             "flat_map", "inspect", "take_while", "skip_while", "position", "find_map", "retain", "map_or", "map_or_else"}
 QUALIFY = {"new", "default", "with_capacity"}
+OPTION_TO_RESULT = {"context", "with_context", "ok_or", "ok_or_else"}
 
 
 # ------------------------------------------------------------------------------------------- smart constructors
@@ -498,8 +499,8 @@ class Norm:
             if r.get("variant"):
                 return ("ctor", r["variant"], ())
             dk = r.get("dk", "")
-            if dk.startswith("Ctor"):
-                return ("ctor", (r.get("adt") or r.get("path") or "?").rsplit("::", 1)[-1], ())
+            if dk.startswith("Ctor") or r.get("r") == "selfctor":
+                return ("ctor", (r.get("adt") or r.get("path") or "?").split("<")[0].rsplit("::", 1)[-1], ())
             if dk in ("Fn", "AssocFn"):
                 return ("fn", (r.get("path") or "?").rsplit("::", 1)[-1])
             if dk in ("ConstParam",):
@@ -539,10 +540,13 @@ class Norm:
             return ("lam", T(n["body"]))
         if k == "call":
             c = n.get("callee") or {}
-            if c.get("dk", "").startswith("Ctor"):
-                name = c.get("variant") or (c.get("adt") or c.get("path") or "?").rsplit("::", 1)[-1]
+            if c.get("dk", "").startswith("Ctor") or c.get("r") == "selfctor":
+                # `Self(..)` inside an impl is the tuple constructor of the impl's type
+                name = c.get("variant") or (c.get("adt") or c.get("path") or "?").split("<")[0].rsplit("::", 1)[-1]
                 if name in TRANSPARENT_CTORS and len(n["args"]) == 1:
                     return T(n["args"][0])
+                if name == "Err" and len(n["args"]) == 1 and is_option_like(n):
+                    return ERR                  # `Err(anyhow!(..))` as a value = `bail!(..)` / `return Err(..)`: the error exit
                 return ("ctor", name, tuple(T(a) for a in n["args"]))
             if not c:
                 f = T(n["f"]) if "f" in n else ("opaque", "callee")
@@ -564,6 +568,13 @@ class Norm:
                     return recv
                 if ft[0] == "fn":
                     return mk_each(recv, mk_call(ft[1], [recv if opt else mk_elem(recv)]), opt)
+                if ft[0] == "ctor" and ft[2] == () and ("Fn" in ((a0.get("res") or {}).get("dk") or "") or (a0.get("res") or {}).get("r") == "selfctor"):
+                    # a tuple constructor used as a function value: `.map(Namespace)` = `.map(|x| Namespace(x))`
+                    return mk_each(recv, ("ctor", ft[1], (recv if opt else mk_elem(recv),)), opt)
+            if name in OPTION_TO_RESULT and recv[0] == "omap" and (n["recv"].get("ty") or "").startswith("core::option::Option<"):
+                # `opt.map(f).context(..)` = `match opt { Some(x) => Ok(f(x)), None => bail!(..) }`: None becomes the error exit,
+                # which is transparent (like `?`), so the value is the mapped payload
+                return recv[2]
             if name == "and_then" and len(args) == 1 and is_option_like(n["recv"]):
                 a0 = H.peel(args[0])
                 if a0.get("k") == "closure":
